@@ -71,7 +71,11 @@ def centroid_1dg(data, error=None, mask=None):
     """
     (data, error), _ = process_quantities((data, error), ('data', 'error'))
 
-    data = np.ma.asanyarray(data)
+    # use a new MaskedArray with its own mask (the data are not copied)
+    # so that the mask and fill_value of an input MaskedArray are not
+    # modified below
+    data = np.ma.MaskedArray(np.ma.getdata(data),
+                             mask=np.ma.getmaskarray(data).copy())
 
     if mask is not None and mask is not np.ma.nomask:
         mask = np.asanyarray(mask)
@@ -224,7 +228,11 @@ def centroid_2dg(data, error=None, mask=None):
 
     (data, error), _ = process_quantities((data, error), ('data', 'error'))
 
-    data = np.ma.asanyarray(data)
+    # use a new MaskedArray with its own mask (the data are not copied)
+    # so that the mask and fill_value of an input MaskedArray are not
+    # modified below
+    data = np.ma.MaskedArray(np.ma.getdata(data),
+                             mask=np.ma.getmaskarray(data).copy())
 
     if mask is not None and mask is not np.ma.nomask:
         mask = np.asanyarray(mask)
